@@ -669,4 +669,39 @@ example : AslProofs.HttpExpect.interim (hdrDic [(sContentLength, [50]), (sExpect
 example : AslProofs.HttpExpect.interim (hdrDic [(sContentLength, [49, 50, 56, 48, 48, 48, 48, 48, 48]), (sExpect, s100continue)]) = sTooBig := by decide
 example : AslProofs.HttpExpect.interim (hdrDic [(sContentLength, [50]), (sExpect, [49, 48, 48, 45, 67, 111, 110, 116, 105, 110, 117, 101])]) = [] := by decide
 
+open AslProofs.HttpExpect in
+/-- the same for **chunked framing** (head with `Transfer-Encoding: chunked`, no Content-Length, any `Expect` field, chunks
+    and terminating size line in any spelling the reader accepts): the body handed over is the concatenation of the chunk
+    data, `rest` stays unread, and exactly the interim answer has been written — `100 Continue` iff the value is
+    `100-continue` (without a Content-Length the 417 branch cannot be taken) -/
+theorem read_faithful_chunked_expect (s : Sock) (m t p : Bytes) (hs : List (Bytes × Bytes)) (cs : List Chunk)
+    (sizeLine rest : Bytes) (hw : HeadOkX m t p hs) (hcs : ∀ c ∈ cs, ChunkOk c)
+    (hlf : ∀ b ∈ sizeLine, b ≠ 10) (hshort : sizeLine.length ≤ 16000) (hok : chunkLineOk (sizeLine ++ [13]) = true)
+    (hz : hexToInt (sizeLine ++ [13]) = 0)
+    (hcl : hasHeader (hdrDic hs) sContentLength = false)
+    (hte : isChunked (header (hdrDic hs) sTransferEncoding) = true)
+    (he : s.err = 0) (hc : s.closed = false)
+    (hi : s.inp = m ++ 32 :: (t ++ 32 :: (p ++ 13 :: 10 :: (hdrBlock hs ++ 13 :: 10 ::
+            (cs.flatMap Chunk.bytes ++ (sizeLine ++ 13 :: 10 :: 13 :: 10 :: rest)))))) :
+    ∃ tg, parseTarget t = .ok tg ∧
+      AslModel.HttpParse.read s = .ok (mkReq m t p tg (hdrDic hs) (cs.map Chunk.data).flatten,
+        { s with inp := rest,
+                 out := s.out ++ (if cstr (header (hdrDic hs) sExpect) = s100continue then sContinue else []) }) := by
+  have h := read_faithful_chunked_x s m t p hs cs sizeLine rest hw hcs hlf hshort hok hz hcl hte he hc hi
+  rw [interim_no_length _ hcl] at h
+  exact h
+
+-- hypotheses of `read_faithful_chunked_expect`, and the reader on
+-- "POST / HTTP/1.1\r\nTransfer-Encoding: chunked\r\nExpect: 100-continue\r\n\r\n2\r\nhi\r\n0\r\n\r\nX"
+example : AslProofs.HttpExpect.HeadOkX [80, 79, 83, 84] [47] [72, 84, 84, 80, 47, 49, 46, 49]
+    [(sTransferEncoding, sChunked), (sExpect, s100continue)] where
+  method_ne := by decide
+  method_ok := by decide
+  target_ok := by decide
+  proto_ok := by unfold ValueOk; decide
+  line_len := by decide
+  headers_ok := by unfold HeadersOk NameOk ValueOk; decide
+example : (AslModel.HttpParse.read { inp := [80, 79, 83, 84, 32, 47, 32, 72, 84, 84, 80, 47, 49, 46, 49, 13, 10, 84, 114, 97, 110, 115, 102, 101, 114, 45, 69, 110, 99, 111, 100, 105, 110, 103, 58, 32, 99, 104, 117, 110, 107, 101, 100, 13, 10, 69, 120, 112, 101, 99, 116, 58, 32, 49, 48, 48, 45, 99, 111, 110, 116, 105, 110, 117, 101, 13, 10, 13, 10, 50, 13, 10, 104, 105, 13, 10, 48, 13, 10, 13, 10, 88] }).toOption.map
+    (fun r => (r.1.body, r.2.out == sContinue, r.2.inp)) = some ([104, 105], true, [88]) := by decide
+
 end C09
